@@ -1314,6 +1314,11 @@ fn run<'a>(m: &mut Machine<'a>, out: &mut Outcome, pool: &'a [Vec<u8>], ans: &mu
                 }
                 let need = if space { 2 } else { 1 };
                 if m.stack.len() < need {
+                    // xderef with only a float address on the stack: both errors apply (the
+                    // pinned tree looks at the address first)
+                    if m.stack.last().map(|v| v.ty.is_float()).unwrap_or(false) {
+                        errs.push(E_INTEGRAL);
+                    }
                     errs.push(E_STACK);
                 } else if (0..need).any(|i| m.stack[m.stack.len() - 1 - i].ty.is_float()) {
                     errs.push(E_INTEGRAL);
